@@ -2,6 +2,7 @@
 // vary the instruction mix and padding so that every phase offset between the agents occurs.
 //
 //	N <k>
+//	D <op:delay,...>                 simulated per-opcode latencies of this case (may be empty)
 //	M <idx> A <arch line>            architecture of processor idx (0 = producer, 1..k consumers)
 //	M <idx> S <source line> ...      program source
 //	M <idx> P <words>                assembled program
@@ -178,9 +179,11 @@ func u8(x interface{}) int {
 	return -1
 }
 
-func runCase(srcs [][]string, ticks int) {
+// delays: per-opcode simulated latencies (simbox.SimDelays with one certain value each), "" = none
+func runCase(srcs [][]string, ticks int, delays string) {
 	k := len(srcs) - 1
 	out.Line("N %d", k)
+	out.Line("D %s", delays)
 	bm := new(bondmachine.Bondmachine)
 	bm.Rsize = 8
 	bm.Init()
@@ -216,6 +219,15 @@ func runCase(srcs [][]string, ticks int) {
 	}
 	vm := new(bondmachine.VM)
 	vm.Bmach = bm
+	if delays != "" {
+		sd := simbox.NewSimDelays()
+		for _, kv := range strings.Split(delays, ",") {
+			f := strings.SplitN(kv, ":", 2)
+			d, _ := strconv.Atoi(f[1])
+			sd.OpcodeDelays[f[0]] = simbox.DelayDistribution{int32(d): 1.0}
+		}
+		vm.SimDelayMap = sd
+	}
 	res := common.Guard(func() string {
 		if err := vm.Init(); err != nil {
 			return "T err " + err.Error()
@@ -243,8 +255,10 @@ func runCase(srcs [][]string, ticks int) {
 	}
 	for t := 0; t < ticks; t++ {
 		pre := make([]int, k+1)
+		dl := make([]int, k+1)
 		for i := range pre {
 			pre[i] = int(vm.Processors[i].Pc)
+			dl[i] = int(vm.Processors[i].DelayCounter)
 		}
 		seen := vm.Processors[0].OutputsRecv[0] // as left by the previous tick's movement; refreshed in Step
 		_ = seen
@@ -264,7 +278,7 @@ func runCase(srcs [][]string, ticks int) {
 		}
 		p0 := vm.Processors[0]
 		// completion of a write / a read = the pc left the IO instruction
-		if isIO(0, pre[0]) && post[0] != pre[0] {
+		if isIO(0, pre[0]) && dl[0] == 0 && post[0] != pre[0] {
 			written = append(written, u8(p0.Outputs[0]))
 		}
 		var rs, dfs []string
@@ -273,14 +287,14 @@ func runCase(srcs [][]string, ticks int) {
 			rs = append(rs, b2s(c.InputsRecv[0]))
 			_, pend := c.DeferredInstructions["waitRecvI2rw0"]
 			dfs = append(dfs, b2s(pend))
-			if isIO(i, pre[i]) && post[i] != pre[i] {
+			if isIO(i, pre[i]) && dl[i] == 0 && post[i] != pre[i] {
 				// the destination register of the i2rw just executed
 				f := strings.Fields(srcs[i][pre[i]])
 				reg, _ := strconv.Atoi(strings.TrimPrefix(f[1], "r"))
 				recvd[i] = append(recvd[i], u8(c.Registers[reg]))
 			}
 		}
-		out.Line("G pre=%s post=%s v=%s d=%d r=%s df=%s rv=%s", ints(pre), ints(post), b2s(p0.OutputsValid[0]), u8(p0.Outputs[0]),
+		out.Line("G pre=%s post=%s dl=%s v=%s d=%d r=%s df=%s rv=%s", ints(pre), ints(post), ints(dl), b2s(p0.OutputsValid[0]), u8(p0.Outputs[0]),
 			strings.Join(rs, ","), strings.Join(dfs, ","), b2s(p0.OutputsRecv[0]))
 	}
 	out.Line("W %s", ints(written))
@@ -306,7 +320,17 @@ func main() {
 			for i := 0; i < k; i++ {
 				srcs = append(srcs, genConsumer(r))
 			}
-			runCase(srcs, ticks)
+			delays := ""
+			if r.Chance(1, 2) { // simulated per-opcode latencies: relative speeds vary without changing the programs
+				var ds []string
+				for _, op := range []string{"nop", "i2rw", "r2owa", "inc", "j"} {
+					if r.Chance(1, 3) {
+						ds = append(ds, op+":"+strconv.Itoa(1+r.Intn(8)))
+					}
+				}
+				delays = strings.Join(ds, ",")
+			}
+			runCase(srcs, ticks, delays)
 		}
 	case "replay":
 		f, err := os.Open(os.Args[2])
@@ -317,17 +341,22 @@ func main() {
 		sc := bufio.NewScanner(f)
 		var srcs [][]string
 		ticks := 200
+		delays := ""
 		flush := func() {
 			if len(srcs) > 0 {
-				runCase(srcs, ticks)
+				runCase(srcs, ticks, delays)
 			}
 			srcs = nil
+			delays = ""
 		}
 		for sc.Scan() {
 			l := sc.Text()
 			switch {
 			case strings.HasPrefix(l, "N "):
 				flush()
+			case strings.HasPrefix(l, "D "):
+				delays = strings.TrimSpace(strings.TrimPrefix(l, "D "))
+			case l == "D":
 			case strings.HasPrefix(l, "TICKS "):
 				ticks, _ = strconv.Atoi(strings.TrimPrefix(l, "TICKS "))
 			case strings.HasPrefix(l, "M "):
